@@ -17,44 +17,22 @@ set_option linter.unusedSectionVars false
 
 variable {α : Type} [Inhabited α] [Field α] [LinearOrder α] [IsStrictOrderedRing α]
 
-/-- the `(epoch start, 2N)` segments of a history: `zip(self.time_breaks, self.population_size)` -/
-def histSegs (ps tb : List α) : List (α × α) := ((0 : α) :: tb).zip (ps.map (fun n => 2 * n))
-
-theorem initOk_iff (ps tb : List α) :
-    initOk ps tb = true ↔ (∀ n ∈ ps, 0 < n) ∧ tb.length + 1 = ps.length ∧ increasingFrom 0 tb = true := by
-  simp [initOk, and_assoc]
-
-theorem histSegs_valid (ps tb : List α) (hok : initOk ps tb = true) : Valid (histSegs ps tb) := by
-  obtain ⟨h1, h2, h3⟩ := (initOk_iff ps tb).mp hok
-  exact valid_of_increasing 0 tb ps h2 h3 h1
-
-theorem histSegs_ne (ps tb : List α) (hok : initOk ps tb = true) : histSegs ps tb ≠ [] := by
-  obtain ⟨_, h2, _⟩ := (initOk_iff ps tb).mp hok
-  match ps, h2 with
-  | n :: ps', _ => simp [histSegs]
-
-theorem histSegs_head (ps tb : List α) (hok : initOk ps tb = true) :
-    ((histSegs ps tb).head (histSegs_ne ps tb hok)).1 = 0 := by
-  obtain ⟨_, h2, _⟩ := (initOk_iff ps tb).mp hok
-  match ps, h2 with
-  | n :: ps', _ => simp [histSegs]
-
-theorem init_nat (ps tb : List α) :
-    (History.init ps tb).timeBreaks.zip (History.init ps tb).popSize2 = histSegs ps tb := rfl
-
-/-- the stored coalescent arrays are the image history (starts = accumulated integrals, measures
-inverted) -/
-theorem init_coal (ps tb : List α) (hok : initOk ps tb = true) :
-    (History.init ps tb).coalBreaks.zip (History.init ps tb).coalRate = trFrom (histSegs ps tb) 0 :=
-  newBreaks_zip (histSegs ps tb) (histSegs_valid ps tb hok) (histSegs_ne ps tb hok)
-    (histSegs_head ps tb hok)
-
 /-- **`to_coalescent_timescale` is the integral** `∫₀ᵗ dt'/(2N(t'))`, written out as the explicit
 piecewise sum `integ` (Spec/Demography): the searchsorted index plus cumulative `step` of
 `_change_time_measure` computes exactly that, for every accepted history and every `t ≥ 0`. -/
 theorem toCoalescent_integral (ps tb : List α) (hok : initOk ps tb = true) (t : α) (ht : 0 ≤ t) :
     (History.init ps tb).toCoalescent t = integ (histSegs ps tb) t :=
   newTime_eq_integ _ t (histSegs_valid ps tb hok) (histSegs_ne ps tb hok) (histSegs_head ps tb hok) ht
+
+/-- **The same, in the most literal form of the statement**: `to_coalescent_timescale(t)` is the sum over
+epochs of (length of the part of the epoch below `t`) / `2N(epoch)`. -/
+theorem toCoalescent_overlap_sum (ps tb : List α) (hok : initOk ps tb = true) (t : α) (ht : 0 ≤ t) :
+    (History.init ps tb).toCoalescent t = overlapSum (histSegs ps tb) t := by
+  rw [toCoalescent_integral ps tb hok t ht]
+  unfold integ
+  rw [integFrom_eq_overlapSum _ 0 t (histSegs_valid ps tb hok) (histSegs_ne ps tb hok)
+    (by rw [histSegs_head ps tb hok]; exact ht)]
+  simp
 
 /-- `to_natural_timescale` is the same integral over the image history. -/
 theorem toNatural_integral (ps tb : List α) (hok : initOk ps tb = true) (c : α) (hc : 0 ≤ c) :
